@@ -262,6 +262,11 @@ func (s *Sim) WallNow() time.Time {
 	return time.UnixMilli(s.cfg.BaseUnixMs).Add(s.now + s.wallOff)
 }
 
+// WallPeek is the wall clock without the per-read tick (deadline arithmetic of the simulated network).
+func (s *Sim) WallPeek() time.Time {
+	return time.UnixMilli(s.cfg.BaseUnixMs).Add(s.now + s.wallOff)
+}
+
 // ShiftWall moves the wall clock relative to the monotonic one (fault injection).
 func (s *Sim) ShiftWall(d time.Duration) { s.wallOff += d }
 
